@@ -597,8 +597,17 @@ def install_env_stubs(eng):
 
     def lockstub(nm):
         def f(e, st, args, ins):
-            st.user.setdefault("locks", []).append((nm, simp(args[0])))
-            st.events.append(("lock", nm, simp(args[0])))
+            a = simp(args[0])
+            st.user.setdefault("locks", []).append((nm, a))
+            st.events.append(("lock", nm, a))
+            held = st.user.setdefault("held", {})
+            key = a.as_long() if is_conc(a) else str(a)
+            if nm.endswith("unlock"):
+                held.pop(key, None)
+            elif "rdlock" in nm:
+                held[key] = "r"
+            else:
+                held[key] = "w"
             return [(st, BV(0, 32))]
         return f
     for nm in ("pthread_rwlock_wrlock", "pthread_rwlock_rdlock", "pthread_rwlock_unlock", "pthread_mutex_lock",
